@@ -178,26 +178,46 @@ def sign_table(repo, rep, f):
     p_lat, p_lon, p_cm = ps[2], ps[3], ps[4]
     names = set()
     for st in tail:
+        callees = set(id(n.func) for n in ast.walk(st) if isinstance(n, ast.Call))
         for n in ast.walk(st):
-            if isinstance(n, ast.Name) and isinstance(n.ctx, ast.Load) and n.id != var:
+            if isinstance(n, ast.Name) and isinstance(n.ctx, ast.Load) and n.id != var and id(n) not in callees:
                 names.add(n.id)
-    srcs = {}
-    for nm in names:
-        s = sign_source(f, nm)
-        if s not in (p_lat, p_lon, p_cm):
-            rep.undecided('R-SIGN', key, w, 'the sign rule tests %s, which is not a sign-preserving image of lat, lon or cm' % nm)
-            return
-        srcs[nm] = s
+    from ..signtable import straight_line_values
+
+    def parity(lon_v, cm_v, lat_v):
+        # the straight-line prefix evaluated on representative numbers (degrees): every name the sign rule tests gets its value
+        vals = straight_line_values(f, last + 1, {p_lon: lon_v, p_cm: cm_v, p_lat: lat_v})
+        missing = sorted(n for n in names if n not in vals)
+        if missing:
+            raise Undecidable('the sign rule tests %s, whose value is not an arithmetic image of lat, lon and cm' % ', '.join(missing))
+        return negation_parity(tail, var, vals)
     table = {}
     try:
         for a in (-1, 0, 1):
             for b in (-1, 0, 1):
-                vals = {p_lon: a, p_cm: 0, p_lat: b}
-                env = dict((nm, vals[s]) for nm, s in srcs.items())
-                table[(a, b)] = negation_parity(tail, var, env)
+                table[(a, b)] = parity(147.0 + 2.0 * a, 147.0, 30.0 * b)
     except Undecidable as e:
-        rep.undecided('R-SIGN', key, w, 'sign rule not in the comparison-only subset: %s' % e)
+        rep.undecided('R-SIGN', key, w, 'sign rule not decidable on representative values: %s' % e)
         return
+    # across the antimeridian the side of the central meridian is the sign of the WRAPPED difference: zone 1 (cm -177) holds the points
+    # of longitude 179 (3 deg west of it), zone 60 (cm 177) those of longitude -179 (4 deg east of it)
+    for lon_v, cm_v, side in ((179.0, -177.0, -1), (-179.0, 177.0, 1), (179.9, -177.0, -1), (-180.0, 177.0, 1)):
+        for b in (-1, 1):
+            k = key + '::antimeridian(lon=%g,cm=%g),lat%+d' % (lon_v, cm_v, b)
+            try:
+                got = parity(lon_v, cm_v, 30.0 * b)
+            except Undecidable as e:
+                rep.undecided('R-SIGN', k, w, 'sign rule not decidable: %s' % e)
+                continue
+            want = -side * b
+            if got == want:
+                rep.holds('R-SIGN', k, w, 'longitude %g is %s of the central meridian %g (wrapped difference): convergence sign %+d' % (
+                    lon_v, 'east' if side > 0 else 'west', cm_v, got))
+            else:
+                rep.violated('R-SIGN', k, w, 'wrong sign of the grid convergence across the antimeridian: longitude %g lies %s of the central meridian %g of its zone '
+                             '(wrapped difference %+g deg) but the rule compares the raw numbers - geo2grid(-30, 179.9, 1) reports +1.55115247 where grid2geo of the same '
+                             'point reports -1.55115247' % (lon_v, 'east' if side > 0 else 'west', cm_v, ((lon_v - cm_v + 180.0) % 360.0) - 180.0),
+                             expected='%+d' % want, actual='%+d' % got)
     bad = []
     for (a, b), got in sorted(table.items()):
         if a == 0 or b == 0:
@@ -214,7 +234,7 @@ def sign_table(repo, rep, f):
         else:
             rep.violated('R-SIGN', k, w, 'wrong sign of the grid convergence for sign(lon-cm)=%+d, sign(lat)=%+d: got %+d, convention '
                          '(grid bearing = azimuth + convergence) needs %+d' % (a, b, got, -a * b), expected='%+d' % (-a * b), actual='%+d' % got)
-    rep.floor('R-SIGN', 9, 'nine orderings')
+    rep.floor('R-SIGN', 17, 'nine orderings and eight positions across the antimeridian')
 
 
 def caller_rules(repo, rep):
